@@ -5,3 +5,7 @@
 mod util;
 #[cfg(kani)]
 mod c05;
+#[cfg(kani)]
+mod c06;
+#[cfg(kani)]
+mod c14;
